@@ -247,7 +247,8 @@ class Run:
               "assumptions": self.assumptions, "wall_s": round(time.time() - self.t0, 1),
               "violations": len(self.violations)}
         # evidence describes /repo itself: a self-test run against a scratch worktree (VERIF_REPO) writes elsewhere
-        evdir = EVID if REPO == "/repo" else os.path.join(VERIF, ".work", "evidence-scratch")
+        # ... and so does a --replay run (it covers one recorded case, not the check)
+        evdir = EVID if REPO == "/repo" and not getattr(self, "replay", None) else os.path.join(VERIF, ".work", "evidence-scratch")
         os.makedirs(evdir, exist_ok=True)
         ev["repo"] = REPO
         with open(os.path.join(evdir, "%s.json" % self.pid), "w") as f:
